@@ -8,7 +8,7 @@
      an intact plain or compressed input -- C15).  Every fragmentation of the
      stream is such a source.  WHang (fuel) never occurs. *)
 From PP Require Import Warc.WarcDefs Warc.WarcProofs Compress.CompressDefs Compress.CompressProofs Warc.ParallelDefs Warc.ParallelProofs.
-From PP Require Import Warc.WarcCompressed Compress.ToyCodec.
+From PP Require Import Warc.WarcCompressed Compress.ToyCodec Warc.WarcIndependent.
 From Coq Require Import Permutation.
 Local Open Scope Z_scope.
 
@@ -125,51 +125,240 @@ Theorem C17_never_hangs :
 Proof. exact never_hangs_proof. Qed.
 Print Assumptions C17_never_hangs.
 
-(* ---- warc_parallel (Warc/ParallelDefs.v): readers, the shared queue, j workers
-   with an identity child, emission of whole records under the mutex; schedules are
-   arbitrary action lists.  Assumptions: the queue delivers each item once in FIFO
-   order (C16), the mutex makes one `*out << record` atomic; the collector's
-   re-framing of the child's output is exact by C17_records_exact; with -z each
-   emitted item is GZCompress(record) = one gzip member for it (C15_gzcompress_roundtrip). *)
+(* What Read returns is a function of the bytes alone: if a stream read from one source
+   (any fragmentation obeying the contract) yields records recs, the same bytes read from
+   ANY other source yield exactly recs -- the accepted language is not described by a
+   grammar here (so also "Content-Length: -0" and the like are covered), every phase of
+   Read is shown to look at the stream only.  (The stream is shorter than the model's
+   allocation limit of 2^46 bytes.) *)
+Theorem C17_reading_is_a_function_of_the_bytes :
+  forall (rstate1 rstate2 : Type)
+         (rread1 : rstate1 -> N -> option (list Z * rstate1)) (rread2 : rstate2 -> N -> option (list Z * rstate2))
+         (rem1 : rstate1 -> list Z) (rem2 : rstate2 -> list Z) (rinv1 : rstate1 -> Prop) (rinv2 : rstate2 -> Prop),
+    rread_contract rstate1 rread1 rem1 rinv1 -> rread_contract rstate2 rread2 rem2 rinv2 ->
+    forall n1 fuel1 rs1 ov1 recs, rinv1 rs1 ->
+      warc_read_all rstate1 rread1 n1 fuel1 rs1 ov1 = AllOk recs ->
+      forall n2 fuel2 rs2 ov2, rinv2 rs2 -> ov2 ++ rem2 rs2 = ov1 ++ rem1 rs1 ->
+        Z.of_nat (length (ov1 ++ rem1 rs1)) < alloc_limit ->
+        (length recs < n2)%nat -> (length (ov1 ++ rem1 rs1) + 1 < fuel2)%nat ->
+        warc_read_all rstate2 rread2 n2 fuel2 rs2 ov2 = AllOk recs.
+Proof. exact read_all_agree. Qed.
+Print Assumptions C17_reading_is_a_function_of_the_bytes.
+
+(* re-framing: the records a successful read returned, written out one after the other
+   (what an identity child does with them) and read again from any source -- e.g. the pipe
+   from the child, in whatever pieces it delivers -- come back as the same records.  No
+   well-formedness premise: acceptance by the first reader is enough. *)
+Theorem C17_reframing_is_exact :
+  forall (rstate1 rstate2 : Type)
+         (rread1 : rstate1 -> N -> option (list Z * rstate1)) (rread2 : rstate2 -> N -> option (list Z * rstate2))
+         (rem1 : rstate1 -> list Z) (rem2 : rstate2 -> list Z) (rinv1 : rstate1 -> Prop) (rinv2 : rstate2 -> Prop),
+    rread_contract rstate1 rread1 rem1 rinv1 -> rread_contract rstate2 rread2 rem2 rinv2 ->
+    forall n1 fuel1 rs1 ov1 recs, rinv1 rs1 ->
+      warc_read_all rstate1 rread1 n1 fuel1 rs1 ov1 = AllOk recs ->
+      forall n2 fuel2 rs2, rinv2 rs2 -> rem2 rs2 = concat recs ->
+        Z.of_nat (length (concat recs)) < alloc_limit ->
+        (length recs < n2)%nat -> (length (concat recs) + 1 < fuel2)%nat ->
+        warc_read_all rstate2 rread2 n2 fuel2 rs2 [] = AllOk recs.
+Proof.
+  intros rstate1 rstate2 rread1 rread2 rem1 rem2 rinv1 rinv2 S1 S2 n1 fuel1 rs1 ov1 recs Hi1 H n2 fuel2 rs2 Hi2 Hr Hal Hn Hf.
+  destruct (success_is_exact_proof rstate1 rread1 rem1 rinv1 S1 n1 fuel1 rs1 ov1 recs Hi1 H) as [Hc _].
+  rewrite Hc in *.
+  apply (read_all_agree rstate1 rstate2 rread1 rread2 rem1 rem2 rinv1 rinv2 S1 S2 n1 fuel1 rs1 ov1 recs Hi1 H); auto.
+Qed.
+Print Assumptions C17_reframing_is_exact.
+
+(* it applies to a stream outside wf_record: "Content-Length: -0" is accepted (strtoll takes
+   the sign, the value is not negative) whole and byte by byte, with the same result *)
+Definition ex_rec_minus0 : list Z :=
+  [87;65;82;67;47;49;46;48;10;  67;111;110;116;101;110;116;45;76;101;110;103;116;104;58;32;45;48;10;  10;  13;10;13;10].
+Example C17_nonvacuous_minus_zero :
+  warc_file 5 200 [ex_rec_minus0] = AllOk [ex_rec_minus0] /\
+  warc_file 5 200 (map (fun b => [b]) ex_rec_minus0) = AllOk [ex_rec_minus0].
+Proof. vm_compute. split; reflexivity. Qed.
+
+Lemma C15_gzcompress_roundtrip_toy : forall r : list Z,
+  exists f0 out, (forall fuel, (f0 <= fuel)%nat -> gz_compress unit tenc tenew tecall fuel tt r = FileOk out) /\ tmember KGz out r.
+Proof. intros r. exact (gzcompress_proof unit tenc tenew tecall tmember TEInv tepend toy_enew_inv toy_run_contract toy_finish_contract tt r). Qed.
+
+(* ---- warc_parallel (Warc/ParallelDefs.v): an executable transition system with one label
+   per thread -- the reader threads (Read + ProduceSwap into the bounded queue, whose ring
+   slots keep their stale strings), Join (waits for the readers, then Produce of one empty
+   string per worker), per worker the input thread (ConsumeSwap; the empty string ends it
+   and closes the child's stdin), the identity child, and the output thread (takes the
+   mutex, writes the record BYTE BY BYTE, releases it).  A schedule is any list of labels;
+   pstep = None means that thread cannot move (blocked or returned).
+   [enc] = what is written for a record: the record itself, with -z GZCompress of it.
+   The records the readers hand over are never empty (C17_parallel_tool_inputs_exact), so
+   none is mistaken for an end marker.
+   Assumed from elsewhere: whole Produce/Consume calls are atomic and FIFO (C16); the output
+   thread's re-framing of the child's bytes (C17_reading_is_a_function_of_the_bytes); pipes
+   never fill up (an unbounded list each).  Regenerated from the source: Join uses Produce,
+   not ProduceSwap (wp_join_swaps), every `*out <<` is under the lock (wp_out_locked). *)
+
+(* never stuck: in every reachable state either every thread has returned or some thread can move *)
+Theorem C17_parallel_never_stuck :
+  forall (enc : rec -> list Z) (inputs : list (list rec)) (N cap : nat) (s : pstate),
+    (0 < N)%nat -> (0 < cap)%nat -> Forall (Forall nonempty) inputs ->
+    reachable (ParallelDefs.pstep enc) (pinit inputs N cap) s ->
+    pterminated s = true \/ exists l s', ParallelDefs.pstep enc s l = Some s'.
+Proof.
+  intros enc inputs N cap s HN Hc Hne Hr.
+  destruct (all_reachable enc inputs N cap s Hne Hr) as [HI [HM HC]].
+  destruct (pterminated s) eqn:ET; [left; reflexivity|right].
+  exact (progress enc N cap s HN Hc HI HM ET).
+Qed.
+Print Assumptions C17_parallel_never_stuck.
+
+(* termination: no schedule is longer than the potential of the initial state, and from every
+   reachable state the end can be reached -- so every schedule, continued until no thread can
+   move, stops after finitely many steps in a state where all threads have returned *)
+Theorem C17_parallel_terminates :
+  forall (enc : rec -> list Z) (inputs : list (list rec)) (N cap : nat),
+    (forall ls s, run (ParallelDefs.pstep enc) (pinit inputs N cap) ls = Some s ->
+                  (length ls <= pmeasure enc (pinit inputs N cap))%nat) /\
+    ((0 < N)%nat -> (0 < cap)%nat -> Forall (Forall nonempty) inputs ->
+     forall s, reachable (ParallelDefs.pstep enc) (pinit inputs N cap) s ->
+       exists ls s', run (ParallelDefs.pstep enc) s ls = Some s' /\ pterminated s' = true).
+Proof.
+  intros enc inputs N cap. split.
+  - intros ls s H. pose proof (runs_bounded enc ls _ _ H). lia.
+  - intros HN Hc Hne s Hr.
+    apply (end_reachable enc inputs N cap HN Hc (pmeasure enc s) s (le_n _)).
+    apply all_reachable; assumption.
+Qed.
+Print Assumptions C17_parallel_terminates.
+
+(* the result, on the byte stream: when no thread can move any more, all have returned and
+   stdout is the concatenation of SOME PERMUTATION of all input records -- every record
+   exactly once, the bytes of two records never interleaved; for every schedule, N >= 1
+   workers, any number of inputs, any queue size *)
 Theorem C17_parallel_exactly_once :
-  forall (inputs : list (list rec)) (jobs : nat) (sched : list action),
-    pdone (prun (pinit inputs jobs) sched) ->
-    Permutation (p_out (prun (pinit inputs jobs) sched)) (concat inputs) /\
-    pbytes (prun (pinit inputs jobs) sched) = concat (p_out (prun (pinit inputs jobs) sched)).
-Proof. exact parallel_exactly_once. Qed.
+  forall (inputs : list (list rec)) (N cap : nat) (ls : list plabel) (s : pstate),
+    (0 < N)%nat -> (0 < cap)%nat -> Forall (Forall nonempty) inputs ->
+    run (ParallelDefs.pstep (fun r => r)) (pinit inputs N cap) ls = Some s -> (forall l, ParallelDefs.pstep (fun r => r) s l = None) ->
+    pterminated s = true /\
+    exists perm, Permutation perm (concat inputs) /\ p_stdout s = concat perm.
+Proof.
+  intros inputs N cap ls s HN Hc Hne Hr Hst.
+  destruct (complete_run (fun r => r) inputs N cap ls s HN Hc Hne Hr Hst) as [T [P1 P2]].
+  split; [exact T|]. exists (p_emitted s). split; [exact P1|]. rewrite P2, map_id. reflexivity.
+Qed.
 Print Assumptions C17_parallel_exactly_once.
 
+(* with -z: [enc r] is what the model of util::GZCompress (C15) returns for r.  Then stdout is
+   one gzip member per record, members whole and one after the other, member i decoding to
+   record i of a permutation of the input: a stream the C15 reader theorem applies to, with
+   payload the concatenated records *)
+Theorem C17_parallel_gzip_members :
+  forall (world estate : Type) (enew : world -> kind -> estate * world)
+         (ecall : kind -> estate -> Z -> list Z -> N -> cres estate)
+         (member : kind -> list Z -> list Z -> Prop)
+         (EInv : kind -> estate -> list Z -> list Z -> Prop) (epend : estate -> nat),
+    (forall w k, EInv k (fst (enew w k)) [] []) ->
+    ecall_run_contract estate ecall EInv epend ->
+    ecall_finish_contract estate ecall member EInv epend ->
+    forall (w : world) (enc : rec -> list Z),
+      (forall r, exists f0, forall fuel, (f0 <= fuel)%nat -> gz_compress world estate enew ecall fuel w r = FileOk (enc r)) ->
+      forall (inputs : list (list rec)) (N cap : nat) (ls : list plabel) (s : pstate),
+        (0 < N)%nat -> (0 < cap)%nat -> Forall (Forall nonempty) inputs ->
+        run (ParallelDefs.pstep enc) (pinit inputs N cap) ls = Some s -> (forall l, ParallelDefs.pstep enc s l = None) ->
+        pterminated s = true /\
+        exists perm, Permutation perm (concat inputs) /\ p_stdout s = concat (map enc perm) /\
+                     Forall (fun r => member KGz (enc r) r) perm /\
+                     kstream member KGz (p_stdout s) (concat perm).
+Proof. exact parallel_gzip_members. Qed.
+Print Assumptions C17_parallel_gzip_members.
+
+(* at every moment of every schedule: what has been begun on stdout is part of the input,
+   nothing twice; stdout is a prefix of the whole records begun, in the order of the mutex *)
 Theorem C17_parallel_never_invents :
-  forall (inputs : list (list rec)) (jobs : nat) (sched : list action),
-    exists rest, Permutation (p_out (prun (pinit inputs jobs) sched) ++ rest) (concat inputs).
-Proof. exact parallel_never_invents. Qed.
+  forall (enc : rec -> list Z) (inputs : list (list rec)) (N cap : nat) (s : pstate),
+    Forall (Forall nonempty) inputs -> reachable (ParallelDefs.pstep enc) (pinit inputs N cap) s ->
+    exists rest pending, Permutation (p_emitted s ++ rest) (concat inputs) /\
+                         p_stdout s ++ pending = concat (map enc (p_emitted s)).
+Proof. intros enc inputs N cap s Hne Hr. apply (safety enc inputs N cap). apply all_reachable; assumption. Qed.
 Print Assumptions C17_parallel_never_invents.
 
+(* one input and one worker: the order is kept too *)
 Theorem C17_parallel_single_worker_keeps_order :
-  forall (input : list rec) (sched : list action),
-    pdone (prun (pinit [input] 1) sched) -> p_out (prun (pinit [input] 1) sched) = input.
-Proof. exact parallel_single_worker_keeps_order. Qed.
+  forall (input : list rec) (cap : nat) (ls : list plabel) (s : pstate),
+    (0 < cap)%nat -> Forall nonempty input ->
+    run (ParallelDefs.pstep (fun r => r)) (pinit [input] 1 cap) ls = Some s -> (forall l, ParallelDefs.pstep (fun r => r) s l = None) ->
+    p_stdout s = concat input.
+Proof.
+  intros input cap ls s Hc Hne Hr Hst.
+  assert (Hin : Forall (Forall nonempty) [input]) by (constructor; [exact Hne|constructor]).
+  destruct (complete_run (fun r => r) [input] 1 cap ls s (le_n 1) Hc Hin Hr Hst) as [T [_ P2]].
+  rewrite P2, map_id. f_equal.
+  apply (single_worker_keeps_order (fun r => r) input cap s Hne); [|exact T].
+  apply reachable_iff_run. exists ls. exact Hr.
+Qed.
 Print Assumptions C17_parallel_single_worker_keeps_order.
 
 (* the input side of the tool (ptool): every input is framed by its own WARCReader and
-   an exception there ends the process.  The tool can only complete when every input
+   an exception there ends the process.  The threads only start from records when every input
    is, byte for byte, a concatenation of CR LF CR LF terminated records: a truncated
-   input (stdin or -i file) is an error of the tool, for every schedule and -j *)
+   input (stdin or -i file) is an error of the tool, for every -j; and no record is empty *)
 Theorem C17_parallel_tool_inputs_exact :
-  forall n fuel (inputs_frags : list frags) jobs sched st,
+  forall n fuel (inputs_frags : list frags) jobs st,
     Forall (fun f => detect_magic (takeN kMagicSize (fbytes f)) = None) inputs_frags ->
-    ptool (fun s => read_plain n fuel [s]) (map fbytes inputs_frags) jobs sched = Some st ->
-    exists inputs, st = prun (pinit inputs jobs) sched /\
+    ptool (fun s => read_plain n fuel [s]) (map fbytes inputs_frags) jobs = Some st ->
+    exists inputs, st = pinit inputs jobs jobs /\ Forall (Forall nonempty) inputs /\
       Forall2 (fun f recs => concat recs = fbytes f /\ Forall ends_with_trailer recs) inputs_frags inputs.
 Proof. exact parallel_tool_inputs_exact. Qed.
 Print Assumptions C17_parallel_tool_inputs_exact.
 
+(* ---- it runs: 2 workers, 3 records from 2 inputs, a queue of 2 slots.  In the middle both
+   output threads hold a record; worker 1 has the mutex and worker 0 cannot move (None);
+   at the end every thread has returned and stdout is a ++ c ++ b, no bytes mixed *)
+Definition ex_sched1 : list plabel :=
+  [LReader 0; LReader 1; LIn 1; LIn 0; LReader 0; LChild 0; LChild 1; LOut 0; LOut 1; LOut 1].
+Definition ex_sched2 : list plabel :=
+  [LOut 1; LOut 1; LOut 0; LOut 0; LOut 0; LIn 1; LMain; LMain; LIn 0; LChild 1; LOut 1; LOut 1; LOut 1; LOut 1; LOut 1;
+   LIn 1; LChild 0; LChild 1; LOut 0; LOut 1].
 Example C17_nonvacuous_parallel :
   let a := [1]%Z in let b := [2; 2]%Z in let c := [3]%Z in
-  let s := prun (pinit [[a; b]; [c]] 2)
-                [ARead 0; ARead 1; AFeed 1; ARead 0; AFeed 0; AFeed 1; AEmit 0; AEmit 1; AEmit 1; AEmit 7] in
-  p_out s = [c; a; b] /\ p_queue s = [] /\ p_flight s = [[]; []] /\ p_inputs s = [[]; []].
-Proof. vm_compute. repeat split. Qed.
+  match run (ParallelDefs.pstep (fun r => r)) (pinit [[a; b]; [c]] 2 2) ex_sched1 with
+  | Some s1 =>
+    p_mutex s1 = true /\ ParallelDefs.pstep (fun r => r) s1 (LOut 0) = None /\ pterminated s1 = false /\
+    match run (ParallelDefs.pstep (fun r => r)) s1 ex_sched2 with
+    | Some s2 => pterminated s2 = true /\ p_stdout s2 = a ++ c ++ b /\ p_emitted s2 = [a; c; b] /\
+                 (forall l, ParallelDefs.pstep (fun r => r) s2 l = None)
+    | None => False
+    end
+  | None => False
+  end.
+Proof.
+  vm_compute. repeat split.
+  intros l. destruct l as [i| |w|w|w]; try reflexivity;
+    repeat (destruct i as [|i]; try reflexivity); repeat (destruct w as [|w]; try reflexivity).
+Qed.
+
+(* the premises of C17_parallel_gzip_members can be met: the toy gzip codec of
+   Compress/ToyCodec.v (magic, [1; b] per byte, [0]) obeys the encoder contract, and its
+   GZCompress result is a function of the record -- a closed instance *)
+Definition toy_gz (r : rec) : list Z := magic_of KGz ++ ToyCodec.enc r ++ [0].
+Theorem C17_parallel_gzip_contract_satisfiable :
+  forall (inputs : list (list rec)) (N cap : nat) (ls : list plabel) (s : pstate),
+    (0 < N)%nat -> (0 < cap)%nat -> Forall (Forall nonempty) inputs ->
+    run (ParallelDefs.pstep toy_gz) (pinit inputs N cap) ls = Some s -> (forall l, ParallelDefs.pstep toy_gz s l = None) ->
+    pterminated s = true /\
+    exists perm, Permutation perm (concat inputs) /\ p_stdout s = concat (map toy_gz perm) /\
+                 kstream tmember KGz (p_stdout s) (concat perm).
+Proof.
+  intros inputs N cap ls s HN Hc Hne Hr Hst.
+  destruct (C17_parallel_gzip_members unit tenc tenew tecall tmember TEInv tepend toy_enew_inv toy_run_contract toy_finish_contract
+              tt toy_gz) with (inputs := inputs) (N := N) (cap := cap) (ls := ls) (s := s) as [T [perm [P1 [P2 [_ P4]]]]]; auto.
+  - intros r. destruct (C15_gzcompress_roundtrip_toy r) as [f0 [out [H1 H2]]]. exists f0. intros fuel Hf.
+    rewrite (H1 fuel Hf). unfold tmember in H2. rewrite H2. reflexivity.
+  - split; [exact T|]. exists perm. auto.
+Qed.
+Print Assumptions C17_parallel_gzip_contract_satisfiable.
+
+Example C17_nonvacuous_gzcompress_model :
+  gz_compress unit tenc tenew tecall 200 tt [5; 6] = FileOk (toy_gz [5; 6]).
+Proof. vm_compute. reflexivity. Qed.
 
 (* ---- the broken-framing classes one by one (each: a format error from Read,
    for every source / fragmentation; none of them resynchronises) *)
@@ -213,6 +402,35 @@ Theorem C17_bad_terminator_is_error :
       warc_read rstate rread fuel rs ov = RecErr rstate WFormat.
 Proof. exact bad_terminator_is_error_proof. Qed.
 Print Assumptions C17_bad_terminator_is_error.
+
+(* the premises of C17_bad_version_is_error and C17_bad_terminator_is_error can be met, and the
+   executable model gives the announced error on such streams (whole and byte by byte) *)
+Example C17_nonvacuous_bad_version :
+  let vline := [87;65;82;67;47;49;46;49;13] in      (* "WARC/1.1" CR *)
+  no10 vline /\ strip_cr_end vline <> warc_version /\
+  warc_file 5 200 [vline ++ 10 :: skipn 9 ex_rec2] = AllErr WFormat [] /\
+  warc_file 5 200 (map (fun b => [b]) (vline ++ 10 :: skipn 9 ex_rec2)) = AllErr WFormat [].
+Proof.
+  split; [repeat constructor; lia|]. split; [vm_compute; discriminate|]. vm_compute. split; reflexivity.
+Qed.
+
+Example C17_nonvacuous_bad_terminator :
+  let vline := [87;65;82;67;47;49;46;48] in
+  let hs := [[67;111;110;116;101;110;116;45;76;101;110;103;116;104;58;50]] in    (* Content-Length:2 *)
+  let body := [104; 105] in let term := [13;10;13;13] in
+  let r := vline ++ [10] ++ lines_bytes hs ++ [] ++ [10] ++ body ++ term in
+  no10 vline /\ strip_cr_end vline = warc_version /\ hdrs false hs (length body) /\
+  Z.of_nat (length r) < alloc_limit /\ length term = 4%nat /\ term <> warc_trailer /\
+  warc_file 5 200 [r ++ ex_rec2] = AllErr WFormat [] /\
+  warc_file 5 200 (map (fun b => [b]) (r ++ ex_rec2)) = AllErr WFormat [].
+Proof.
+  cbv zeta. split; [repeat constructor; lia|]. split; [reflexivity|]. split.
+  - apply hdrs_cl; [|constructor].
+    exists [67;111;110;116;101;110;116;45;76;101;110;103;116;104;58], [], false, [50], false.
+    repeat split; try reflexivity; try (repeat constructor; lia); try discriminate;
+      try (vm_compute; discriminate).
+  - split; [vm_compute; reflexivity|]. split; [reflexivity|]. split; [discriminate|]. vm_compute. split; reflexivity.
+Qed.
 
 Example C17_nonvacuous_bad_header :
   (* "X: y" then a blank line: Content-Length missing;  CL, then "content-length: 9": duplicate *)
